@@ -72,10 +72,12 @@ def event_actions(prev, cur):
             acts.append(["setvar", b["where"], name, vprogs._lit(b["value"])])
         else:
             acts.append(["exec", b["where"], vprogs.render_def(name, b, cur, "vpk")])
-            for other, od in cur["defs"].items():         # aliases of the redefined function keep pointing at the old object
-                if od["kind"] != "var" and [name, "alias"] in od["refs"] and od["where"] == b["where"]:
-                    acts.append(["exec", b["where"], "a_%s = %s\n" % (name, name)])
-                    break
+            # every alias name currently bound to the redefined function is re-bound to the new object
+            amap = cur.get("alias_map", {})
+            used = {t for od in cur["defs"].values() if od["kind"] != "var" for t, f in od["refs"] if f == "alias"}
+            for t in sorted(used):
+                if amap.get(t, t) == name and t in cur["defs"] and cur["defs"][t]["where"] == b["where"]:
+                    acts.append(["exec", b["where"], "a_%s = %s\n" % (t, name)])
     return acts
 
 
